@@ -18,17 +18,18 @@ Inductive offence :=
 | InvalidSyncRequest       (* sync RPC handler: request payload missing / undecodable / empty / wrong ID length *)
 | InvalidSyncResponse      (* syncing node: the peer's answer is invalid, not better, below finality, or fails processing *)
 | RateAboveLimit           (* more than limit messages of a procedure in an interval *)
-| Plumbing.                (* forwarding inside pkg/p2p, no decision taken here *)
+| Plumbing                 (* forwarding inside pkg/p2p, no decision taken here *)
+| SyncPeerNotAhead.        (* block sync: the selected peer's (valid) last block does not have priority over our tip: see docs/C18.md *)
 
 Definition offence_code (o : offence) : nat :=
   match o with MalformedEnvelope => 0 | UnknownProc => 1 | InvalidSyncRequest => 2 | InvalidSyncResponse => 3
-             | RateAboveLimit => 4 | Plumbing => 5 end.
+             | RateAboveLimit => 4 | Plumbing => 5 | SyncPeerNotAhead => 6 end.
 
 Definition expected_sites : list (psite * offence) :=
   [(mkSite "pkg/consensus/sync/block_sync.go" "blockSyncer.Sync" "s.conn.BanPeer"
       "err := networkLastBlockHeader.Validate(); err != nil", InvalidSyncResponse);
    (mkSite "pkg/consensus/sync/block_sync.go" "blockSyncer.Sync" "s.conn.BanPeer"
-      "lastBlockHeader.Version == 2 | !forkchoice.IsDifferentChain(lastBlockHeader.MaxHeightPrevoted, networkLastBlockHeader.MaxHeightPrevoted, lastBlockHeader.Height, networkLastBlockHeader.Height)", InvalidSyncResponse);
+      "lastBlockHeader.Version == 2 | !forkchoice.IsDifferentChain(lastBlockHeader.MaxHeightPrevoted, networkLastBlockHeader.MaxHeightPrevoted, lastBlockHeader.Height, networkLastBlockHeader.Height)", SyncPeerNotAhead);
    (mkSite "pkg/consensus/sync/block_sync.go" "blockSyncer.Sync" "s.conn.BanPeer"
       "range downloader.downloaded | not(downloaded.err != nil) | err := downloaded.block.Validate(); err != nil", InvalidSyncResponse);
    (mkSite "pkg/consensus/sync/fast_sync.go" "fastSyncer.Sync" "s.conn.BanPeer"
